@@ -88,11 +88,14 @@ class Baton:
 class SimLock:
     def __init__(self, baton, name=""):
         self.baton, self.name, self.held = baton, name, False
+        self.log = []                   # thread ids in the order they acquired this lock
 
     def acquire(self, *a, **k):
         self.baton.yield_point("acquire", self)
         assert not self.held, "scheduled while the lock is held"
         self.held = True
+        t = self.baton.by_ident.get(threading.get_ident())
+        self.log.append(t.tid if t is not None else None)
         return True
 
     def release(self):
